@@ -157,7 +157,7 @@ Lemma raw_open_used U sg qs sps m i c :
   0 < bsz (get (entries sg) i) ->
   exists l1 l2, sps = l1 ++ (i, c) :: l2 /\ 1 <= U /\ raw_inv (U - 1) (sg, qs) i c l1 l2 m.
 Proof.
-  intros (Ht & Hm & Hf & Hok & (r & Hr) & Hb0 & Hu & Hl & Hn & (Q1 & Q2 & Q3 & Q4)) Hk Hin Hi0 Hbi.
+  intros (Ht & Hm & Hf & Hok & (r & Hr) & Hhs & Hb0 & Hu & Hl & Hn & (Q1 & Q2 & Q3 & Q4)) Hk Hin Hi0 Hbi.
   cbn [fst snd] in *.
   destruct (tiles_split _ _ _ _ _ Ht Hin) as (l1 & l2 & E & T1 & T2).
   exists l1, l2. split; [assumption|].
@@ -191,7 +191,7 @@ Lemma raw_open_free U sg qs sps m i c :
   exists l1 l2, sps = l1 ++ (i, c) :: l2 /\
     raw_inv U (if owned sg then span_queue_delete (sg, qs) (slice_bin c) i else (sg, qs)) i c l1 l2 m.
 Proof.
-  intros (Ht & Hm & Hf & Hok & (r & Hr) & Hb0 & Hu & Hl & Hn & (Q1 & Q2 & Q3 & Q4)) Hk Hin Hbi.
+  intros (Ht & Hm & Hf & Hok & (r & Hr) & Hhs & Hb0 & Hu & Hl & Hn & (Q1 & Q2 & Q3 & Q4)) Hk Hin Hbi.
   cbn [fst snd] in *.
   destruct (tiles_split _ _ _ _ _ Ht Hin) as (l1 & l2 & E & T1 & T2).
   exists l1, l2. split; [assumption|].
@@ -490,7 +490,7 @@ Lemma inv_with_flat U sg qs sps m :
   (span_Inv_with U (sg, qs) sps m <->
    (tiles 0 m sps /\ slice_entries sg <= m /\ (exists r, sps = (0, info_slices sg) :: r) /\
     0 < bsz (get (entries sg) 0) /\ flat_inv U sg qs sps)).
-Proof. intros Hk. unfold span_Inv_with, flat_inv. cbn [fst snd]. tauto. Qed.
+Proof. intros Hk. unfold span_Inv_with, flat_inv, huge_shape. cbn [fst snd]. rewrite Hk. tauto. Qed.
 
 Lemma raw_a_pos U st a w l1 l2 m : raw_inv U st a w l1 l2 m -> 0 < a.
 Proof.
@@ -584,6 +584,7 @@ Proof.
       + intros Hlt. replace (a + w - 1 - a) with (a + w - 1 - a) by lia. apply S4. assumption.
       + intros Hh. congruence. }
   split. { exists (match l1 with [] => [] | _ :: t => t end ++ (a, w) :: l2). rewrite Hr. reflexivity. }
+  split. { unfold huge_shape. change (kind sg') with (kind sg). rewrite Hk. exact I. }
   split. { rewrite Hin_frame by lia. assumption. }
   split.
   { rewrite count_used_app, count_used_cons, S2. cbn [bsz].
